@@ -161,15 +161,60 @@ func (g *coreGen) boolExpr(vars []gvar, d int) string {
 		return fmt.Sprintf("(%s >= %s)", g.intExpr(vars, d-1), g.intExpr(vars, d-1))
 	case 3:
 		return fmt.Sprintf("!%s", g.boolExpr(vars, d-1))
-	case 4:
-		return fmt.Sprintf("(%s && %s)", g.boolExpr(vars, d-1), g.boolExpr(vars, d-1))
-	case 5:
-		return fmt.Sprintf("(%s || %s)", g.boolExpr(vars, d-1), g.boolExpr(vars, d-1))
+	case 4, 5:
+		op := "&&"
+		if g.r.chance(50) {
+			op = "||"
+		}
+		right := g.boolExpr(vars, d-1)
+		if g.r.chance(60) {
+			// the skipped operand holds what the optimizer fuses (x+c, s[c], p.x, local+local, a call): the
+			// short-circuit distance must be measured on the code that is finally executed
+			right = fmt.Sprintf("(%s %s %s)", g.fusableInt(vars), pick(g.r, []string{"<", ">", "==", "!=", "<=", ">="}), g.fusableInt(vars))
+			g.kinds["short-circuit over fusable operand"]++
+		}
+		return fmt.Sprintf("(%s %s %s)", g.boolExpr(vars, d-1), op, right)
 	case 6:
 		return fmt.Sprintf("(%s != %s)", g.strExpr(vars, 0), g.strExpr(vars, 0))
 	default:
 		return fmt.Sprintf("(%s <= %s)", g.floatExpr(vars, d-1), g.floatExpr(vars, d-1))
 	}
+}
+
+// fusableInt is an int expression of one of the shapes the peephole optimizer rewrites.
+func (g *coreGen) fusableInt(vars []gvar) string {
+	iv := varsOf(vars, "int")
+	a := fmt.Sprint(g.r.intn(9))
+	b := a
+	if len(iv) > 0 {
+		a, b = pick(g.r, iv), pick(g.r, iv)
+	}
+	switch g.r.intn(8) {
+	case 0:
+		return fmt.Sprintf("%s + %d", a, 1+g.r.intn(5))
+	case 1:
+		return fmt.Sprintf("%s - %d", a, 1+g.r.intn(5))
+	case 2:
+		return fmt.Sprintf("%s %s %s", a, pick(g.r, []string{"+", "-", "*"}), b)
+	case 3:
+		if sv := varsOf(vars, "[]int"); len(sv) > 0 {
+			return fmt.Sprintf("%s[%d]", pick(g.r, sv), g.r.intn(3))
+		}
+	case 4:
+		if pv := varsOf(vars, "*P"); len(pv) > 0 {
+			if g.r.chance(50) {
+				return fmt.Sprintf("%s.x", pick(g.r, pv))
+			}
+			return fmt.Sprintf("%s.get()", pick(g.r, pv))
+		}
+	case 5:
+		return fmt.Sprintf("vsum(%s, %d)", a, g.r.intn(5))
+	case 6:
+		if mv := varsOf(vars, "map[string]int"); len(mv) > 0 {
+			return fmt.Sprintf("%s[%q]", pick(g.r, mv), pick(g.r, []string{"a", "b"}))
+		}
+	}
+	return fmt.Sprintf("%s + %d + %d", a, g.r.intn(4), 1+g.r.intn(4))
 }
 
 func (g *coreGen) strExpr(vars []gvar, d int) string {
